@@ -70,13 +70,18 @@ class Index:
     def text(self, file, s, e):
         return self.source(file)[s:e].decode("utf-8")
 
-    def find(self, path, kind="fn", trait=None, file_hint=None, nth=None, allow_test=False, name_in_mod=None):
+    def find(self, path, kind="fn", trait=None, file_hint=None, nth=None, allow_test=False, name_in_mod=None, impl_self=None):
         cands = [i for i in self.items if i["path"] == path and i["kind"] == kind and (allow_test or not i.get("in_test"))]
         if trait is not None:
             t = "".join(trait.split())
             cands = [i for i in cands if (i.get("impl_trait") or "") == t]
         if name_in_mod is not None:
             cands = [i for i in cands if name_in_mod in i.get("mods", [])]
+        if impl_self is not None:
+            # the self type of the impl block, e.g. "Entry<EntryValid, STATE>" (compared without whitespace)
+            t = "".join(impl_self.split())
+            full = {(i["file"], i.get("impl_ord")): i.get("impl_self_full") for i in self.items if i.get("impl_self_full") is not None}
+            cands = [i for i in cands if "".join((full.get((i["file"], i.get("impl_ord"))) or "").split()) == t]
         if len(cands) > 1 and file_hint:
             h = [i for i in cands if i["file"].endswith(file_hint)]
             if h:
@@ -204,7 +209,8 @@ class Weaver:
             for k, c in enumerate(closures):
                 if within is not None and not (within[0] <= c["span"][0] and c["span"][1] <= within[1] and c["span"] != list(within_self)):
                     continue
-                if ps["body_contains"] in src[c["body"][0]:c["body"][1]].decode("utf-8") and k not in cl_specs:
+                if ps["body_contains"] in src[c["body"][0]:c["body"][1]].decode("utf-8") and k not in cl_specs \
+                        and not any(x in src[c["body"][0]:c["body"][1]].decode("utf-8") for x in ps.get("body_excludes", [])):
                     # innermost match only: skip a closure that merely encloses a matching one
                     inner = [c2 for c2 in closures if c2 is not c and c["body"][0] <= c2["span"][0] and c2["span"][1] <= c["body"][1]
                              and ps["body_contains"] in src[c2["body"][0]:c2["body"][1]].decode("utf-8")]
@@ -223,6 +229,8 @@ class Weaver:
             for j, p in enumerate(c["inputs"]):
                 if p["simple"] is None and r2:
                     fresh = f"kvx_p{k}_{j}"
+                    if cs is not None and j < len(cs.get("pnames", [])):
+                        fresh = cs["pnames"][j]      # a name for the pattern parameter that does not depend on the closure's ordinal
                     ptxt = src[p["span"][0]:p["span"][1]].decode("utf-8")
                     if p["typed"]:
                         # `(a, b): T` -> `fresh: T` ; pattern part before the last top-level ':'
@@ -236,7 +244,7 @@ class Weaver:
                 # R5: the closure text is cut out and replaced by a placeholder; a literal patch of the sidecar then redirects the
                 # call that consumed it (e.g. `iter.for_each(KVX_CLOSURE_0)`) to a stand-in specified through the closure-converted
                 # function proved separately
-                ed.replace(c["span"][0], c["span"][1], f"KVX_CLOSURE_{k}", "R5")
+                ed.replace(c["span"][0], c["span"][1], f"KVX_CLOSURE_{cs.get('cut_name', k)}", "R5")   # cut_name: a placeholder that does not depend on the closure's ordinal
                 continue
             need_block = bool(pre_lets) or (cs is not None)
             if cs is not None:
@@ -278,7 +286,7 @@ class Weaver:
 
     # ---- functions ---------------------------------------------------------
     def emit_fn(self, spec):
-        it = self.ix.find(spec["path"], kind="fn", trait=spec.get("trait"), file_hint=spec.get("file_hint"), nth=spec.get("nth"))
+        it = self.ix.find(spec["path"], kind="fn", trait=spec.get("trait"), file_hint=spec.get("file_hint"), nth=spec.get("nth"), impl_self=spec.get("impl_self"))
         fid = spec.get("id", spec["path"])
         if "body_open" not in it:
             raise Undecided(f"{spec['path']} has no body")
@@ -493,14 +501,21 @@ def emit_closure_fn(w, spec):
     closure's captured variables (given in the sidecar, e.g. `accumulate: &mut ResolvedAccountPolicy`) followed by the closure's
     own parameters. The body text is copied byte-for-byte (D1 applies). This is the definitional meaning of calling the closure;
     `iter.for_each(f)` calls it once per element, in order (std documentation of Iterator::for_each)."""
-    it = w.ix.find(spec["path"], kind="fn", trait=spec.get("trait"), file_hint=spec.get("file_hint"))
-    k = spec["ordinal"]
+    it = w.ix.find(spec["path"], kind="fn", trait=spec.get("trait"), file_hint=spec.get("file_hint"), nth=spec.get("nth"), impl_self=spec.get("impl_self"))
     cls = it.get("closures", [])
+    src0 = w.ix.source(it["file"])
+    if "body_contains" in spec and "ordinal" not in spec:
+        # addressed by content: the innermost closure whose body contains the string (robust against closures added elsewhere)
+        hits = [j for j, c0 in enumerate(cls) if spec["body_contains"] in src0[c0["body"][0]:c0["body"][1]].decode("utf-8")]
+        hits = [j for j in hits if not any(j2 != j and cls[j]["body"][0] <= cls[j2]["span"][0] and cls[j2]["span"][1] <= cls[j]["body"][1] for j2 in hits)]
+        if len(hits) != 1:
+            raise Undecided(f"anchor lost: {len(hits)} closures of {spec['path']} contain {spec['body_contains']!r}")
+        k = hits[0]
+    else:
+        k = spec["ordinal"]
     if k >= len(cls):
         raise Undecided(f"anchor lost: closure {k} of {spec['path']} (function has {len(cls)} closures)")
     c = cls[k]
-    if not c["body_is_block"]:
-        raise Undecided(f"R5: closure {k} of {spec['path']} has an expression body")
     names = [p["simple"] for p in c["inputs"]]
     if None in names or names != spec.get("closure_params", names):
         raise Undecided(f"R5: closure {k} of {spec['path']} has parameters {names}, contract expects {spec.get('closure_params')}")
@@ -518,6 +533,8 @@ def emit_closure_fn(w, spec):
     fid = spec.get("id", spec["path"] + f"#closure{k}")
     w.weave_closures(ed, src, fid, spec, cls, (bs, be), tuple(c["span"]))
     body, fired = ed.apply()
+    if not c["body_is_block"]:
+        body = "{ " + body + " }"      # an expression-bodied closure `|x| e` means `|x| { e }`
     hdr = []
     if spec.get("requires"):
         hdr.append("    requires")
